@@ -171,16 +171,16 @@ theorem C16_open_close_idempotent {P : Type} (pts : List P) (nb : P → P → Bo
 /-! ### morphology: the `morph_impl` model -/
 
 /-- erosion (`morph_impl`, erosion): the result is the greatest lower bound of the pixel itself and of every in-image
-    neighbour selected by a non-zero structuring-element entry: entry `at(x = r, y = c)` selects offset (cx − c, cy − r) -/
+    neighbour selected by a non-zero structuring-element entry: entry in row r, column c selects offset (cx − c, cy − r) -/
 theorem C16_morph_min (src : Int → Int → Int) (w h : Nat) (ker : List Int) (ks cy cx : Nat) (x y : Nat) (v : Int) :
     v ≤ morphAt src w h ker ks cy cx false x y ↔
-      v ≤ src x y ∧ ∀ r c, r < ks → c < ks → ker.getD (c * ks + r) 0 ≠ 0 →
+      v ≤ src x y ∧ ∀ r c, r < ks → c < ks → ker.getD (r * ks + c) 0 ≠ 0 →
         inImg w h ((x : Int) + ((cx : Int) - (c : Int))) ((y : Int) + ((cy : Int) - (r : Int))) →
         v ≤ src ((x : Int) + ((cx : Int) - (c : Int))) ((y : Int) + ((cy : Int) - (r : Int))) := by
   unfold morphAt
   rw [le_foldl_iff (List.range ks) _
     (fun kr x' => ∀ kc ∈ List.range ks,
-      (ker.getD ((((ks : Int) - 1 - (kc : Int)).toNat) * ks + (((ks : Int) - 1 - (kr : Int)).toNat)) 0 ≠ 0 →
+      (ker.getD ((((ks : Int) - 1 - (kr : Int)).toNat) * ks + (((ks : Int) - 1 - (kc : Int)).toNat)) 0 ≠ 0 →
         inImg w h ((x : Int) + ((cx : Int) - ((ks : Int) - 1 - (kc : Int)))) ((y : Int) + ((cy : Int) - ((ks : Int) - 1 - (kr : Int)))) →
         x' ≤ src ((x : Int) + ((cx : Int) - ((ks : Int) - 1 - (kc : Int)))) ((y : Int) + ((cy : Int) - ((ks : Int) - 1 - (kr : Int))))))]
   · constructor
@@ -208,7 +208,7 @@ theorem C16_morph_min (src : Int → Int → Int) (w h : Nat) (ker : List Int) (
   · intro acc kr x'
     rw [le_foldl_iff (List.range ks) _
       (fun kc x'' =>
-        (ker.getD ((((ks : Int) - 1 - (kc : Int)).toNat) * ks + (((ks : Int) - 1 - (kr : Int)).toNat)) 0 ≠ 0 →
+        (ker.getD ((((ks : Int) - 1 - (kr : Int)).toNat) * ks + (((ks : Int) - 1 - (kc : Int)).toNat)) 0 ≠ 0 →
           inImg w h ((x : Int) + ((cx : Int) - ((ks : Int) - 1 - (kc : Int)))) ((y : Int) + ((cy : Int) - ((ks : Int) - 1 - (kr : Int)))) →
           x'' ≤ src ((x : Int) + ((cx : Int) - ((ks : Int) - 1 - (kc : Int)))) ((y : Int) + ((cy : Int) - ((ks : Int) - 1 - (kr : Int))))))]
     intro acc' kc x''
@@ -225,16 +225,16 @@ theorem C16_morph_min (src : Int → Int → Int) (w h : Nat) (ker : List Int) (
       · rintro ⟨h1, _⟩; exact h1
 
 /-- dilation (`morph_impl`, dilation): the result is the least upper bound of the pixel itself and of every in-image
-    neighbour selected by a non-zero structuring-element entry: entry `at(x = r, y = c)` selects offset (cx − c, cy − r) -/
+    neighbour selected by a non-zero structuring-element entry: entry in row r, column c selects offset (cx − c, cy − r) -/
 theorem C16_morph_max (src : Int → Int → Int) (w h : Nat) (ker : List Int) (ks cy cx : Nat) (x y : Nat) (v : Int) :
     morphAt src w h ker ks cy cx true x y ≤ v ↔
-      src x y ≤ v ∧ ∀ r c, r < ks → c < ks → ker.getD (c * ks + r) 0 ≠ 0 →
+      src x y ≤ v ∧ ∀ r c, r < ks → c < ks → ker.getD (r * ks + c) 0 ≠ 0 →
         inImg w h ((x : Int) + ((cx : Int) - (c : Int))) ((y : Int) + ((cy : Int) - (r : Int))) →
         src ((x : Int) + ((cx : Int) - (c : Int))) ((y : Int) + ((cy : Int) - (r : Int))) ≤ v := by
   unfold morphAt
   rw [foldl_le_iff (List.range ks) _
     (fun kr x' => ∀ kc ∈ List.range ks,
-      (ker.getD ((((ks : Int) - 1 - (kc : Int)).toNat) * ks + (((ks : Int) - 1 - (kr : Int)).toNat)) 0 ≠ 0 →
+      (ker.getD ((((ks : Int) - 1 - (kr : Int)).toNat) * ks + (((ks : Int) - 1 - (kc : Int)).toNat)) 0 ≠ 0 →
         inImg w h ((x : Int) + ((cx : Int) - ((ks : Int) - 1 - (kc : Int)))) ((y : Int) + ((cy : Int) - ((ks : Int) - 1 - (kr : Int)))) →
         src ((x : Int) + ((cx : Int) - ((ks : Int) - 1 - (kc : Int)))) ((y : Int) + ((cy : Int) - ((ks : Int) - 1 - (kr : Int)))) ≤ x'))]
   · constructor
@@ -262,7 +262,7 @@ theorem C16_morph_max (src : Int → Int → Int) (w h : Nat) (ker : List Int) (
   · intro acc kr x'
     rw [foldl_le_iff (List.range ks) _
       (fun kc x'' =>
-        (ker.getD ((((ks : Int) - 1 - (kc : Int)).toNat) * ks + (((ks : Int) - 1 - (kr : Int)).toNat)) 0 ≠ 0 →
+        (ker.getD ((((ks : Int) - 1 - (kr : Int)).toNat) * ks + (((ks : Int) - 1 - (kc : Int)).toNat)) 0 ≠ 0 →
           inImg w h ((x : Int) + ((cx : Int) - ((ks : Int) - 1 - (kc : Int)))) ((y : Int) + ((cy : Int) - ((ks : Int) - 1 - (kr : Int)))) →
           src ((x : Int) + ((cx : Int) - ((ks : Int) - 1 - (kc : Int)))) ((y : Int) + ((cy : Int) - ((ks : Int) - 1 - (kr : Int)))) ≤ x''))]
     intro acc' kc x''
@@ -321,11 +321,11 @@ theorem C16_morph_is_erode_dilate (src : Int → Int → Int) (w h : Nat) (ker :
           ((mem_imagePts w h _).mpr hin) ((nbK_iff ker ks cy cx _ _).mpr ⟨r, c, hr, hc, hk, rfl, rfl⟩)
     exact Int.le_antisymm ((key _).mpr (Int.le_refl _)) ((key _).mp (Int.le_refl _))
 
-/-- a point-symmetric structuring element (entry (r,c) non-zero iff entry (2cy−r, 2cx−c) non-zero) gives a symmetric
+/-- a point-symmetric structuring element (entry (row r, column c) non-zero iff entry (2cy−r, 2cx−c) non-zero) gives a symmetric
     neighbourhood relation: the hypothesis of the opening/closing laws -/
 theorem C16_symmetric_se (ker : List Int) (ks cy cx : Nat)
-    (hsym : ∀ r c, r < ks → c < ks → ker.getD (c * ks + r) 0 ≠ 0 →
-      2 * cy - r < ks ∧ 2 * cx - c < ks ∧ r ≤ 2 * cy ∧ c ≤ 2 * cx ∧ ker.getD ((2 * cx - c) * ks + (2 * cy - r)) 0 ≠ 0)
+    (hsym : ∀ r c, r < ks → c < ks → ker.getD (r * ks + c) 0 ≠ 0 →
+      2 * cy - r < ks ∧ 2 * cx - c < ks ∧ r ≤ 2 * cy ∧ c ≤ 2 * cx ∧ ker.getD ((2 * cy - r) * ks + (2 * cx - c)) 0 ≠ 0)
     (p q : Int × Int) : nbK ker ks cy cx p q = nbK ker ks cy cx q p := by
   have one : ∀ p q, nbK ker ks cy cx p q = true → nbK ker ks cy cx q p = true := by
     intro p q hpq
@@ -337,34 +337,10 @@ theorem C16_symmetric_se (ker : List Int) (ks cy cx : Nat)
   · have := one p q hpq; rw [hqp] at this; cases this
 
 
-/-- for a structuring element whose non-zero pattern is invariant under transposition (cross, square, disc, diagonal
-    lines …) the neighbourhood as coded equals the Spec neighbourhood -/
-theorem C16_se_orientation_agrees (ker : List Int) (ks cy cx : Nat) (px py qx qy : Int)
-    (ht : transposeInvariant ker ks = true) :
-    isNeighbour ker ks cy cx px py qx qy = isNeighbourSpec ker ks cy cx px py qx qy := by
-  unfold transposeInvariant at ht
-  simp only [List.all_eq_true, List.mem_range, beq_iff_eq] at ht
-  have e : ∀ r c, r < ks → c < ks → ((ker.getD (c * ks + r) 0 ≠ 0) ↔ (ker.getD (r * ks + c) 0 ≠ 0)) := by
-    intro r c hr hc
-    have h0 := ht r hr c hc
-    have h0' : (ker.getD (r * ks + c) 0 = 0) ↔ (ker.getD (c * ks + r) 0 = 0) := by
-      constructor
-      · intro h; have : (ker.getD (r * ks + c) 0 == 0) = true := beq_iff_eq.mpr h
-        rw [h0] at this; exact beq_iff_eq.mp this
-      · intro h; have : (ker.getD (c * ks + r) 0 == 0) = true := beq_iff_eq.mpr h
-        rw [← h0] at this; exact beq_iff_eq.mp this
-    exact ⟨fun h1 h2 => h1 (h0'.mp h2), fun h1 h2 => h1 (h0'.mpr h2)⟩
-  unfold isNeighbour isNeighbourSpec
-  rw [Bool.eq_iff_iff]
-  simp only [List.any_eq_true, List.mem_range, Bool.and_eq_true, ne_eq, beq_iff_eq, decide_eq_true_eq]
-  constructor
-  · rintro ⟨r, hr, c, hc, ⟨h1, h2⟩, h3⟩; exact ⟨r, hr, c, hc, ⟨(e r c hr hc).mp h1, h2⟩, h3⟩
-  · rintro ⟨r, hr, c, hc, ⟨h1, h2⟩, h3⟩; exact ⟨r, hr, c, hc, ⟨(e r c hr hc).mpr h1, h2⟩, h3⟩
-
-/-- KNOWN FINDING, machine-checked: `morph_impl` reads the structuring element transposed.  A horizontal 1×3 line
-    (symmetric: B = −B) dilates VERTICALLY in the model of the code, whereas the Spec dilates horizontally. -/
-theorem C16_se_transposed_witness :
-    morph 3 3 [0, 0, 0, 1, 1, 1, 0, 0, 0] 3 1 1 true [0, 0, 0, 0, 9, 0, 0, 0, 0] = [0, 9, 0, 0, 9, 0, 0, 9, 0]
+/-- regression witness of the fixed finding C16-morph-se-transposed (f4ff363): a horizontal 1×3 line (a symmetric
+    structuring element) dilates a single bright pixel HORIZONTALLY, in the model of the code and in the Spec alike -/
+theorem C16_se_orientation_witness :
+    morph 3 3 [0, 0, 0, 1, 1, 1, 0, 0, 0] 3 1 1 true [0, 0, 0, 0, 9, 0, 0, 0, 0] = [0, 0, 0, 9, 9, 9, 0, 0, 0]
     ∧ morphSpec 3 3 [0, 0, 0, 1, 1, 1, 0, 0, 0] 3 1 1 true [0, 0, 0, 0, 9, 0, 0, 0, 0] = [0, 0, 0, 9, 9, 9, 0, 0, 0]
     ∧ pointSymmetric [0, 0, 0, 1, 1, 1, 0, 0, 0] 3 1 1 = true := by decide
 
@@ -435,8 +411,8 @@ example : (∀ p ∈ [(-100 : Int), 100, 5], Ch.i8.lo ≤ p ∧ p ≤ Ch.i8.hi) 
 set_option maxRecDepth 100000 in
 example : otsuChannel .i8 true false [-100, -100, 100] = .ok [0, 0, 127] := by rfl
 /-- the 3×3 cross is point-symmetric about its centre: hypothesis of `C16_symmetric_se` -/
-example : ∀ r c, r < 3 → c < 3 → [0, 1, 0, 1, 1, 1, 0, 1, (0:Int)].getD (c * 3 + r) 0 ≠ 0 →
-    2 * 1 - r < 3 ∧ 2 * 1 - c < 3 ∧ r ≤ 2 * 1 ∧ c ≤ 2 * 1 ∧ [0, 1, 0, 1, 1, 1, 0, 1, (0:Int)].getD ((2 * 1 - c) * 3 + (2 * 1 - r)) 0 ≠ 0 := by
+example : ∀ r c, r < 3 → c < 3 → [0, 1, 0, 1, 1, 1, 0, 1, (0:Int)].getD (r * 3 + c) 0 ≠ 0 →
+    2 * 1 - r < 3 ∧ 2 * 1 - c < 3 ∧ r ≤ 2 * 1 ∧ c ≤ 2 * 1 ∧ [0, 1, 0, 1, 1, 1, 0, 1, (0:Int)].getD ((2 * 1 - r) * 3 + (2 * 1 - c)) 0 ≠ 0 := by
   intro r c hr hc
   have h1 : r = 0 ∨ r = 1 ∨ r = 2 := by omega
   have h2 : c = 0 ∨ c = 1 ∨ c = 2 := by omega
